@@ -105,7 +105,7 @@ def specTxId (H : B → B) (d : TxD) : Option B :=
 
 /-! The tag bytes and the type-dependent layout choices of the format, as tables (cryptonote_basic.h `txin_v` / `txout_target_v`
 variant tags, tx_extra.h `TX_EXTRA_*`, rctTypes.h `RCTType*`), for comparison with the tables regenerated from /repo. -/
-def tagsTxIn : List (Nat × TxInV) := [(0xff, .Gen), (0x02, .ToKey)]
+def tagsTxIn : List (Nat × TxInV) := [(0x02, .ToKey), (0xff, .Gen)]
 def tagsTarget : List (Nat × TargetV) := [(0x02, .ToKey), (0x03, .ToTaggedKey)]
 def tagsExtra : List (Nat × SubFieldV) := [(0x00, .Padding), (0x01, .TxPublicKey), (0x02, .Nonce), (0x03, .MergeMining), (0x04, .AdditionalPublickKey), (0xde, .MysteriousMinerGate)]
 def tagsRct : List (Nat × RctTy) := [(0, .Null), (1, .Full), (2, .Simple), (3, .Bulletproof), (4, .Bulletproof2), (5, .Clsag), (6, .BulletproofPlus)]
